@@ -26,7 +26,7 @@ func TestReplay(t *testing.T) {
 	case "TestC11Hub":
 		key, msg = replayScenario(f.Script, judgeC11b)
 	case "TestC01Hub":
-		key, msg = replayScenario(f.Script, judgeC10)
+		key, msg = replayScenario(f.Script, judgeC01Hub)
 	case "TestC09Hub":
 		key, msg = replayScenario(f.Script, judgeC09Hub)
 	default:
